@@ -381,7 +381,7 @@ def one_case(sh, fa, rng, case, scratch, tag, full_matrix=False):
                    "parsed": rng.random() < 0.5,
                    "meta": rng.choice(metas),
                    "marker": bytes(rng.getrandbits(8) for _ in range(16)) if rng.random() < 0.5 else b"",
-                   "level": rng.choice([None, 0, 1, 6, 9]) if codec == "deflate" else None,
+                   "level": rng.choice([None, 0, 1, 6, 9]) if codec == "deflate" else rng.choice([None, None, 1, 9]),
                    "flushes": sorted(rng.sample(range(len(recs)), rng.randint(0, len(recs)))) if recs and rng.random() < 0.3 else None}
             if cfg["flushes"] is None and recs and rng.random() < 0.12:
                 cfg["block_copy"] = rng.choice(CODECS)
